@@ -42,6 +42,32 @@ func (w *World) findBody(p pkgT, key string) (*ast.FuncType, *ast.BlockStmt, *ty
 			litPath = append(litPath, n)
 		}
 	}
+	if strings.HasPrefix(outer, "init") {
+		// init functions: init (first), init#2 (second) ...
+		want := 1
+		wantFile := ""
+		if i := strings.Index(outer, "#"); i > 0 {
+			fmt.Sscanf(outer[i+1:], "%d", &want)
+		}
+		if i := strings.Index(outer, "@"); i > 0 {
+			wantFile = outer[i+1:] // init@file.go
+		}
+		n := 0
+		for _, f := range p.Syntax {
+			if wantFile != "" && !strings.HasSuffix(p.Fset.Position(f.Pos()).Filename, "/"+wantFile) {
+				continue
+			}
+			for _, d := range f.Decls {
+				if fd, ok := d.(*ast.FuncDecl); ok && fd.Name.Name == "init" && fd.Recv == nil {
+					n++
+					if n == want {
+						return fd.Type, fd.Body, types.NewSignatureType(nil, nil, nil, nil, nil, false), fd, nil
+					}
+				}
+			}
+		}
+		return nil, nil, nil, nil, nil
+	}
 	fn := w.findFunc(p, outer)
 	if fn == nil {
 		return nil, nil, nil, nil, nil
@@ -93,6 +119,7 @@ func (w *World) verifyFunc(p pkgT, cs *ContractSet, ct *Contract) (res *UnitResu
 	u.c.emit("(declare-const time.zero Int)")
 	x := &Exec{u: u, w: w, info: p.TypesInfo, fset: p.Fset, key: ct.Key, fullKey: res.Key, ct: ct, sig: sig,
 		names: map[string]int{}, loopOrd: map[ast.Stmt]int{}, labels: map[ast.Stmt]string{}, closureAssigned: map[types.Object]bool{}, body: body, curHidden: map[string]Term{}}
+	x.initGlobals = strings.HasPrefix(ct.Key, "init")
 	defer func() {
 		res.Obls = x.obls
 		res.decls = u.c.decls
@@ -189,6 +216,17 @@ func (w *World) verifyFunc(p pkgT, cs *ContractSet, ct *Contract) (res *UnitResu
 			}
 		}
 	}
+	if x.initGlobals {
+		// package-level variables assigned by this init function start at their zero value
+		for o := range x.assignedIn(body) {
+			if v, ok := o.(*types.Var); ok && v.Pkg() != nil && v.Parent() == v.Pkg().Scope() {
+				z := u.c.zero(u.c.sortOf(v.Type()), v.Type())
+				z.Go = v.Type()
+				st.vars[v] = z
+			}
+		}
+		u.c.note("init function: package-level variables it assigns are assumed to start at their zero value (no initialiser expression, no earlier init in file order touches them)")
+	}
 	// entry environment for old()
 	entry := st.clone()
 	x.oldEnv = x.specEnv(entry)
@@ -196,7 +234,13 @@ func (w *World) verifyFunc(p pkgT, cs *ContractSet, ct *Contract) (res *UnitResu
 	// ghost variables
 	for _, g := range ct.Ghosts {
 		env := x.specEnv(st)
-		v := x.safeSpec(env, g.Init, "ghost var "+g.Name)
+		var v Term
+		if g.Init.Op == "ident" && g.Init.Name == "havoc" {
+			gs, _ := u.sortOfTypeStr(g.Type)
+			v = u.c.fresh(g.Name, gs)
+		} else {
+			v = x.safeSpec(env, g.Init, "ghost var "+g.Name)
+		}
 		st.ghost[g.Name] = v
 		entry.ghost[g.Name] = v
 	}
@@ -450,4 +494,53 @@ func (w *World) verifyLemma(p pkgT, cs *ContractSet, lm *Lemma) (res *UnitResult
 		x.assert(st, env.eval(e.Expr), "lemma", lbl, nil, e.Raw)
 	}
 	return
+}
+
+// verifyImmutable: frame obligation "no function other than init assigns the package-level variable".
+// Decided syntactically over the typed AST of the whole package (field-insensitive on the root identifier).
+func (w *World) verifyImmutable(p pkgT, d ImmutableDecl) *UnitResult {
+	res := &UnitResult{Key: pkgRel(p) + ".immutable:" + d.Name, Pkg: pkgRel(p), Props: d.Props, Kind: "frame"}
+	obj := p.Types.Scope().Lookup(d.Name)
+	if obj == nil {
+		res.Err = "package-level variable not found: " + d.Name
+		return res
+	}
+	var offenders []string
+	for _, f := range p.Syntax {
+		for _, dcl := range f.Decls {
+			fd, ok := dcl.(*ast.FuncDecl)
+			if !ok || fd.Body == nil || (fd.Name.Name == "init" && fd.Recv == nil) {
+				continue
+			}
+			ast.Inspect(fd.Body, func(n ast.Node) bool {
+				check := func(e ast.Expr) {
+					if rootObj(p.TypesInfo, e) == obj {
+						offenders = append(offenders, fmt.Sprintf("%s at %s", fd.Name.Name, p.Fset.Position(e.Pos())))
+					}
+				}
+				switch s := n.(type) {
+				case *ast.AssignStmt:
+					for _, l := range s.Lhs {
+						check(l)
+					}
+				case *ast.IncDecStmt:
+					check(s.X)
+				case *ast.UnaryExpr:
+					if s.Op.String() == "&" {
+						check(s.X)
+					}
+				}
+				return true
+			})
+		}
+	}
+	goal := tTrue
+	txt := "no function other than init assigns or takes the address of " + d.Name
+	if len(offenders) > 0 {
+		goal = tFalse
+		txt += "; offenders: " + strings.Join(offenders, ", ")
+	}
+	res.decls = []string{}
+	res.Obls = []*Obligation{{Name: res.Key + "#frame:immutable", Kind: "frame", Func: res.Key, PC: tTrue, Goal: goal, Text: txt, syntactic: true}}
+	return res
 }
